@@ -6,7 +6,7 @@
 (*   Wire   {method, kind, segs, sup, undeclared, body, hasBody}           *)
 (*   Parse  {ok, params}                   what the handler parsed         *)
 (*   Respond{type, value, status}          what the handler returned       *)
-(*   ServerDone {status, writes, ctype, hdrNames, body, bodyEmpty}         *)
+(*   ServerDone {status, writes, ctype, hdrNames, hdrVals, body, bodyEmpty} *)
 (*   Return {ok, type, value, isDefault, code, panic}  what the caller got *)
 (***************************************************************************)
 EXTENDS Wire, TLC, Json
@@ -53,7 +53,7 @@ ServerDone == /\ Is("ServerDone") /\ call.has /\ responded.has
                      st == IF Ev.isDefault THEN "default" ELSE Ev.statusText IN
                    /\ st \in Documented(op)
                    /\ (Ev.isDefault => Ev.status = Ev.code)
-                   /\ WriteOK(RespOf(op, st), Ev)
+                   /\ WriteOK(RespOf(op, st), responded.value, Ev)
               /\ served' = [has |-> TRUE, status |-> Ev.statusText]
               /\ l' = l + 1 /\ UNCHANGED <<cfg, cur, call, wireOK, parsed, responded, stats>>
 
